@@ -822,6 +822,7 @@ pub fn can_contain_type<'a>(node: &'a AstNode<'a>, child: &NodeValue) -> bool {
                 | NodeValue::Underline
                 | NodeValue::Subscript
                 | NodeValue::Escaped
+                | NodeValue::EscapedTag(_)
         ),
 
         #[cfg(feature = "shortcodes")]
@@ -843,6 +844,7 @@ pub fn can_contain_type<'a>(node: &'a AstNode<'a>, child: &NodeValue) -> bool {
             | NodeValue::Underline
             | NodeValue::Subscript
             | NodeValue::Escaped
+            | NodeValue::EscapedTag(_)
             | NodeValue::ShortCode(..)
         ),
 
